@@ -97,7 +97,7 @@ NumField(t) ==
   CASE t.k = "uid" -> "uid" [] t.k = "gid" -> "gid" [] t.k = "inum" -> "ino" [] t.k = "links" -> "nlink"
     [] t.k = "mirror-count" -> "mirrors" [] t.k = "stripe-count" -> "stripes"
 
-SwapCase(s) == [i \in 1..Len(s) |-> IF IsLower(s[i]) THEN s[i] - 32 ELSE IF IsUpper(s[i]) THEN s[i] + 32 ELSE s[i]]
+SwapCase(s) == [i \in 1..Len(s) |-> IF FoldLower(s[i]) # s[i] THEN FoldLower(s[i]) ELSE FoldUpper(s[i])]
 \* a string the glob pattern p matches: '*' -> "ab", '?' -> "c", '[' .. ']' -> its first member
 RECURSIVE Instantiate(_, _)
 Instantiate(p, i) ==
